@@ -30,7 +30,8 @@ FLOORS = {'countif_cases': 1000, 'countifs_cases': 200, 'match_cases': 500,
           'operator_prefixes_seen': 6, 'library_calls': 500,
           'countifs_rectangles': 100, 'choose_with_ranges': 100,
           'criteria_vs_operator_cases': 50,
-          'approximate_text_matches': 100}
+          'approximate_text_matches': 100,
+          'lookup_history_cases': 300}
 ANCHOR_FUNCS = {
     'xlcalculator/xlfunctions/lookup.py': ['MATCH', 'VLOOKUP', 'CHOOSE'],
     'xlcalculator/xlfunctions/statistics.py': ['COUNTIF', 'COUNTIFS'],
@@ -426,6 +427,115 @@ def run(ctx):
             ctx.event('choose_with_ranges')
         B.maybe_flush()
     B.flush()
+    # ---- histories: tables that share their key column, payloads re-assigned -----
+    # (an answer must come from the table the formula names as it is NOW: same
+    # keys with other payloads or another width, side by side in one workbook,
+    # then the payloads and the key order changed through set_cell_value)
+    for round_ in range(40 if thorough else 5):
+        keykind = ('num', 'text')[round_ % 2]
+        pool = [1, 2, 3, 5, 7, 10, -1, 2.5] if keykind == 'num' else \
+            ['apple', 'Banana', 'cherry', 'date', 'Elder', 'fig']
+        keys = rng.sample(pool, rng.randint(2, 5))
+        widths = [2, 3, 4, 1, 3]
+        rng.shuffle(widths)
+        serial = [0]
+
+        def payload():
+            serial[0] += 1
+            return serial[0] * 10 + round_ if rng.random() < 0.7 else \
+                'p%d' % serial[0]
+
+        def fresh_tables(ks):
+            return [[[k] + [payload() for _ in range(w - 1)] for k in ks]
+                    for w in widths]
+
+        def cells_of(tables):
+            cells, rgs, r = {}, [], 1
+            for t in tables:
+                for i, row in enumerate(t):
+                    for j, v in enumerate(row):
+                        cells[f'{ref.col_letters(1 + j)}{r + i}'] = v
+                rgs.append(f'A{r}:{ref.col_letters(len(t[0]))}'
+                           f'{r + len(t) - 1}')
+                r += len(t) + 1
+            return cells, rgs
+
+        t0 = fresh_tables(keys)
+        t1 = [[[row[0]] + [payload() for _ in row[1:]] for row in t]
+              for t in t0]                       # same keys, other payloads
+        ks2 = keys[1:] + keys[:1]                # keys rotated, payloads stay
+        t2 = [[[k] + row[1:] for k, row in zip(ks2, t)] for t in t1]
+        steps = [t0, t1, t2, t0]
+        cells0, rgs = cells_of(t0)
+        probes = []
+        for ti, t in enumerate(t0):
+            w = len(t[0])
+            for key in keys + ([keys[0].swapcase()] if keykind == 'text'
+                               else [4242]):
+                kl = subject.lit(key) if not (is_num(key) and key < 0) \
+                    else '-' + subject.lit(-key)
+                for ci in range(1, w + 1):
+                    probes.append((f'=VLOOKUP({kl},{rgs[ti]},{ci},FALSE)',
+                                   ti, key, ci))
+                probes.append((f'=MATCH({kl},A{rgs[ti].split(":")[0][1:]}:A'
+                               f'{rgs[ti].split(":")[1].lstrip("ABCD")},0)',
+                               ti, key, 0))
+        rng.shuffle(probes)          # tables interleaved, not one after the other
+        outs = subject.eval_series([p[0] for p in probes],
+                                   [cells_of(t)[0] for t in steps])
+        if outs is None:
+            ctx.fail(f'workbook of {len(probes)} lookups over tables sharing '
+                     f'the keys {keys} does not compile',
+                     {'keys': keys, 'formulas': [p[0] for p in probes][:20]},
+                     monitor='linear-scan', group='history:compile')
+            continue
+        for step, (tables, got_all) in enumerate(zip(steps, outs)):
+            for (text, ti, key, ci), got in zip(probes, got_all):
+                t = tables[ti]
+                pos = next((i for i, r in enumerate(t)
+                            if values_equal(r[0], key)), None)
+                if ci == 0:
+                    want = ('num', float(pos + 1)) if pos is not None \
+                        else ('err', '#N/A')
+                else:
+                    want = norm_of(t[pos][ci - 1]) if pos is not None \
+                        else ('err', '#N/A')
+                ctx.event('lookup_history_cases')
+                ctx.case(('history', step, 'MATCH' if ci == 0 else 'VLOOKUP',
+                          keykind, pos is None, min(ci, 2)))
+                if got != ('value', want):
+                    ctx.fail(f'{text} after {step} re-assignments of the '
+                             f'tables (same key column, other payloads / '
+                             f'rotated keys): observed {got}, scan of the '
+                             f'table as it is now {t} gives {want}',
+                             {'formula': text,
+                              'assignments_in_order':
+                                  [cells_of(x)[0] for x in steps[:step + 1]],
+                              'step': step, 'table_now': t,
+                              'tables_sharing_the_keys': len(tables),
+                              'observed': got, 'reference': want},
+                             monitor='linear-scan',
+                             group=f'history:{"MATCH" if ci == 0 else "VLOOKUP"}'
+                                   f':step{min(step, 1)}:{got[0]}')
+        # the same through the library: arrays with equal key columns
+        for a, b in ((t0[0], t1[0]), (t1[1], t0[1]), (t0[2], t0[1])):
+            for t in (a, b, a):
+                key = rng.choice(keys)
+                ci = rng.randint(1, len(t[0]))
+                got = monitors.call_outcome(F['VLOOKUP'], key, T.Array(t),
+                                            ci, False)
+                row = next(r for r in t if values_equal(r[0], key))
+                ctx.event('library_calls')
+                ctx.event('lookup_history_cases')
+                if got != ('value', norm_of(row[ci - 1])):
+                    ctx.fail(f'VLOOKUP({key!r}, {t}, {ci}, False) called after'
+                             f' a lookup in another table with the same key '
+                             f'column -> {got}, scan gives '
+                             f'{norm_of(row[ci - 1])}',
+                             {'function': 'VLOOKUP', 'key': key, 'table': t,
+                              'column': ci, 'observed': got,
+                              'reference': norm_of(row[ci - 1])},
+                             monitor='linear-scan', group='history:library')
     # ---- text criteria and the = operator agree on what "the same text" is ------
     # (letters with several lower- or upper-case forms: the statement only says
     # "case-insensitively"; whichever folding is used, COUNTIF's "=x" must
